@@ -139,6 +139,7 @@ func main() {
 	genLastMod()
 	genDispatch()
 	genReadOnly()
+	genPkgState()
 	genBounds()
 	genMsgBounds()
 	if forProp == "" || forProp == "C15" {
